@@ -24,7 +24,18 @@ pub fn workloads(thorough: bool) -> Vec<(String, HCfg)> {
     add("find2", 2, vec![req(0, 1, Body::Find(2), true)], 1, vec![]);
     add("crossing-three", 2, vec![req(1, 0, Body::Ping, true), req(0, 1, Body::Ping, true), req(0, 1, Body::Talk, true)], 1, vec![]);
     add("restart-peer", 2, vec![req(0, 1, Body::Ping, true), req(0, 1, Body::Talk, true)], 1, vec![1]);
+    // a third request under the keys of a session re-established after the peer lost its state
+    add("restart-three", 2, vec![req(0, 1, Body::Ping, true), req(0, 1, Body::Talk, true), req(0, 1, Body::Find(1), true)], 1, vec![1]);
+    // session cache of one entry: a session leaves the cache while its request is in flight and the
+    // (restarted) peer challenges that request
+    out.push(("capacity1-restart".to_string(), HCfg { nodes: 3, workload: vec![req(0, 1, Body::Ping, true), req(0, 1, Body::Talk, true), req(0, 2, Body::Ping, true), req(0, 1, Body::Find(1), true)], retries: 1, allow_restart: vec![1], session_capacity: Some(1), allow_drop: false, allow_dup: false, allow_reorder: false, allow_early_timer: false, ..Default::default() }));
+    let mut add = |name: &str, nodes: usize, w: Vec<Req>, retries: u8, restart: Vec<usize>| {
+        out.push((name.to_string(), HCfg { nodes, workload: w, retries, allow_restart: restart, ..Default::default() }));
+    };
+    // retransmissions: request_retries = 2 re-sends once, 3 twice (the default 1 never re-sends)
+    add("ping-retries2", 2, vec![req(0, 1, Body::Ping, true)], 2, vec![]);
     if thorough {
+        add("ping-retries3", 2, vec![req(0, 1, Body::Ping, true), req(1, 0, Body::Ping, true)], 3, vec![]);
         add("retries2", 2, vec![req(0, 1, Body::Ping, true), req(0, 1, Body::Find(2), true)], 2, vec![]);
         add("three-nodes", 3, vec![req(0, 1, Body::Ping, true), req(0, 2, Body::Ping, false), req(1, 0, Body::Talk, true)], 1, vec![]);
         add("find2+ping-noenr", 2, vec![req(0, 1, Body::Find(2), false), req(0, 1, Body::Ping, false), req(1, 0, Body::Ping, true)], 1, vec![]);
@@ -37,27 +48,27 @@ pub fn workloads(thorough: bool) -> Vec<(String, HCfg)> {
 pub fn regression_holds(payload: &serde_json::Value, prop: &str) -> bool {
     let name = payload["workload"].as_str().unwrap_or("");
     let hist = crate::hsim::parse_history(payload["history"].as_str().unwrap_or("[]"));
-    let wl = workloads(true);
+    let wl: Vec<(String, HCfg)> = workloads(true).into_iter().chain(c20_worlds()).collect();
     let mut cfg = match wl.iter().find(|(n, _)| n == name) {
         Some((_, c)) => c.clone(),
         None => return true,
     };
     cfg.force_nonce = prop == "C19";
-    let monitors = Monitors { c03: prop == "C03", c04: prop == "C04", c13: prop == "C13", c15: false, c19: prop == "C19" };
+    let monitors = Monitors { c03: prop == "C03", c04: prop == "C04", c13: prop == "C13", c15: false, c19: prop == "C19", c20: prop == "C20" };
     rt::run(run_history(&cfg, monitors, &hist, true)).violation.is_none()
 }
 
 pub fn replay(payload: &serde_json::Value, prop: &str) {
     let name = payload["workload"].as_str().unwrap_or("");
     let hist = crate::hsim::parse_history(payload["history"].as_str().unwrap_or("[]"));
-    let wl = workloads(true);
+    let wl: Vec<(String, HCfg)> = workloads(true).into_iter().chain(c20_worlds()).collect();
     let cfg = match wl.iter().find(|(n, _)| n == name) {
         Some((_, c)) => c.clone(),
         None => mc::machinery(&format!("unknown workload {name}")),
     };
     let mut cfg = cfg;
     cfg.force_nonce = prop == "C19";
-    let monitors = Monitors { c03: prop == "C03", c04: prop == "C04", c13: prop == "C13", c15: false, c19: prop == "C19" };
+    let monitors = Monitors { c03: prop == "C03", c04: prop == "C04", c13: prop == "C13", c15: false, c19: prop == "C19", c20: prop == "C20" };
     rt::run(crate::hsim::replay_verbose(&cfg, monitors, &hist, &crate::hsim::NoDriver));
 }
 
@@ -67,7 +78,7 @@ async fn long_session(n: usize, retries: u8) -> (u64, u64, Vec<mc::Violation>, s
     use crate::hsim::{NoDriver, World};
     let workload: Vec<Req> = (0..n).map(|k| if k % 3 == 2 { req(1, 0, if k % 2 == 0 { Body::Ping } else { Body::Talk }, true) } else { req(0, 1, if k % 4 == 0 { Body::Find(2) } else { Body::Ping }, true) }).collect();
     let cfg = HCfg { nodes: 2, workload, retries, force_nonce: true, allow_restart: vec![1], ..Default::default() };
-    let monitors = Monitors { c03: false, c04: false, c13: false, c15: false, c19: true };
+    let monitors = Monitors { c03: false, c04: false, c13: false, c15: false, c19: true, c20: false };
     let mut w = World::build(&cfg, monitors).await;
     let d = NoDriver;
     let mut steps = 0u64;
@@ -80,7 +91,9 @@ async fn long_session(n: usize, retries: u8) -> (u64, u64, Vec<mc::Violation>, s
             w.step(&Ev::Drop(last), &d).await;
             steps += 1;
         }
-        if k == n / 2 {
+        if k == n / 4 {
+            // early: the counters of the re-established session pass the value the challenged
+            // request carried
             w.step(&Ev::Restart(1), &d).await;
             steps += 1;
         }
@@ -114,14 +127,58 @@ async fn long_session(n: usize, retries: u8) -> (u64, u64, Vec<mc::Violation>, s
     (datagrams, steps, vio, counters)
 }
 
+pub fn c20_worlds() -> Vec<(String, HCfg)> {
+    vec![
+        ("held-talk".to_string(), HCfg { nodes: 2, workload: vec![req(0, 1, Body::Talk, true), req(1, 0, Body::Ping, true)], allow_dup: false, allow_reorder: false, ..Default::default() }),
+        ("held-talk-noenr".to_string(), HCfg { nodes: 2, workload: vec![req(0, 1, Body::Talk, false), req(1, 0, Body::Talk, true)], allow_dup: false, allow_reorder: false, ..Default::default() }),
+    ]
+}
+
+/// Handler part of C20: real handlers, the application of one node *holds* a delivered TALK
+/// request while its own request to the requester is lost and times out; answering afterwards
+/// must still put exactly that response on the wire to the requester.
+pub fn c20_part(thorough: bool) -> (mc::Stats, Vec<mc::Violation>) {
+    let monitors = Monitors { c03: false, c04: false, c13: false, c15: false, c19: false, c20: true };
+    let worlds = c20_worlds();
+    let k = if thorough { 3 } else { 2 };
+    let mut total = mc::Stats { states: 0, transitions: 0, executions: 0, steps: 0, max_depth: 0, distinct_terminals: 0, counters: BTreeMap::new(), exhaustive: true, cap: None, per_budget: vec![] };
+    let mut found = vec![];
+    for (name, cfg) in &worlds {
+        let limits = Limits { max_budget: k, max_depth: 80, max_states: 2_000_000, wall_s: mc::budget(thorough, 15.0, 0.2) };
+        let mut vio = vec![];
+        let m = monitors.clone();
+        let stats = mc::explore(&limits, |h: &[Ev]| rt::run(run_history(cfg, m.clone(), h, true)), |v, _| vio.push(v), |_, _| {});
+        total.states += stats.states;
+        total.transitions += stats.transitions;
+        total.executions += stats.executions;
+        total.steps += stats.steps;
+        for (k, v) in stats.counters {
+            *total.counters.entry(k).or_insert(0) += v;
+        }
+        if !stats.exhaustive {
+            total.exhaustive = false;
+            total.cap = stats.cap;
+        }
+        for mut v in vio {
+            if v.key.starts_with("C20:") || v.key.starts_with("panic:") {
+                v.replay["workload"] = json!(name);
+                v.replay["driver"] = json!("hdrive");
+                found.push(v);
+            }
+        }
+    }
+    (total, found)
+}
+
 pub fn run(prop: &str) {
     let mut rep = Report::new(prop, "model_checking");
     let thorough = rep.thorough();
-    let monitors = Monitors { c03: prop == "C03", c04: prop == "C04", c13: prop == "C13", c15: false, c19: prop == "C19" };
+    let monitors = Monitors { c03: prop == "C03", c04: prop == "C04", c13: prop == "C13", c15: false, c19: prop == "C19", c20: prop == "C20" };
     let k_max: u32 = std::env::var("VERIF_K").ok().and_then(|v| v.parse().ok()).unwrap_or(if thorough { 3 } else { 2 });
     let budget = mc::budget(thorough, 50.0, if prop == "C03" || prop == "C13" { 0.5 } else { 1.0 });
     let start = clock::wall();
-    let wl = workloads(thorough);
+    // the three-node cache-eviction workload is decided for C19 in the quick tier, for all four in the thorough tier
+    let wl: Vec<(String, HCfg)> = workloads(thorough).into_iter().filter(|(n, _)| thorough || prop == "C19" || n != "capacity1-restart").collect();
     let per = budget / wl.len() as f64;
     let (mut states, mut trans, mut execs, mut steps) = (0u64, 0u64, 0u64, 0u64);
     let mut counters: BTreeMap<&'static str, u64> = BTreeMap::new();
@@ -183,7 +240,7 @@ pub fn run(prop: &str) {
                 found.push(v);
             }
         }
-        rep.sample(json!({"part":"long session","script":"40 requests in both directions under one session, every 5th request's datagram lost (retransmission), peer restarted half-way (re-key with requests in flight), nonce randomness forced constant"}));
+        rep.sample(json!({"part":"long session","script":"40 requests in both directions under one session, every 5th request's datagram lost (retransmission), peer restarted after a quarter of the requests (re-key with requests in flight; the new session's counters pass the old ones), nonce randomness forced constant"}));
     }
     // C03 / C13 / C04 are also decided against a malicious peer / on-path attacker
     if prop == "C03" || prop == "C13" || prop == "C04" {
